@@ -155,6 +155,22 @@ def run(ctx):
         typed.append(("inapplicable rule inside an or rule-set", '"b" // {or: [{type: "string"}, %s]}' % rs, "err"))
     for rs in ('{type: "email"}', '{type: "integer", min: 1}', '{type: "string", minLength: 1, regex: "b"}', '{type: "decimal", precision: 2}', '{type: "array", minItems: 0}', '{type: "object", additionalProperties: true}', "{min: 1, max: 3}", "{minLength: 1}"):
         typed.append(("applicable rules inside an or rule-set", '"b" // {or: [%s, {type: "string"}]}' % rs, "ok"))
+    # the flags that say nothing (const: false, nullable: false) inside a rule-set change nothing: every rule-set case above once more with such a flag written first / last in
+    # its first rule-set, same expected verdict; and item counts / additionalProperties on scalar rule-sets next to such a flag
+    flagged = []
+    for label, sc, want in typed + [it for it in items if "or: [{" in it[1]]:
+        if "or: [{" not in sc or "const:" in sc or "nullable:" in sc:
+            continue
+        for flag in ("const: false", "nullable: false"):
+            i = sc.index("or: [{") + len("or: [{")
+            j = sc.index("}", i)
+            flagged.append((label + " + " + flag, sc[:i] + flag + ", " + sc[i:], want))
+            flagged.append((label + " + " + flag, sc[:j] + ", " + flag + sc[j:], want))
+    for ex, o in (("true", "integer"), ("1", "boolean"), ('"s"', "integer"), ("null", "string")):
+        for rule in ("minItems: 0", "maxItems: 0", "additionalProperties: true"):
+            for flag in ("const: false", "nullable: false"):
+                flagged.append(("container rule on a scalar rule-set + " + flag, '%s // {or: [{%s, %s}, {type: "%s"}]}' % (ex, rule, flag, o), "err"))
+    typed = typed + flagged
     touts = vc.impl(["schema"], [json.dumps({"schema": sc, "types": TY, "ops": [["check"]]}) for _, sc, _ in typed])
     for (label, sc, want), o in zip(typed, touts):
         r = json.loads(o)[0]
